@@ -32,9 +32,16 @@ func (pConn *PFCPConn) handleSessionEstablishmentRequest(msg message.Message) (m
 
 	errUnmarshalReply := func(err error, offendingIE *ie.IE) (message.Message, error) {
 		// Build response message
-		ies := []*ie.IE{ie.NewCause(ie.CauseRequestRejected)}
-		if offendingIE != nil {
-			ies = append(ies, offendingIE)
+		if offendingIE == nil {
+			pfdres := message.NewSessionEstablishmentResponse(0,
+				0,
+				0,
+				sereq.SequenceNumber,
+				0,
+				ie.NewCause(ie.CauseRequestRejected),
+			)
+
+			return pfdres, errUnmarshal(err)
 		}
 
 		pfdres := message.NewSessionEstablishmentResponse(0,
@@ -42,7 +49,8 @@ func (pConn *PFCPConn) handleSessionEstablishmentRequest(msg message.Message) (m
 			0,
 			sereq.SequenceNumber,
 			0,
-			ies...,
+			ie.NewCause(ie.CauseRequestRejected),
+			offendingIE,
 		)
 
 		return pfdres, errUnmarshal(err)
